@@ -18,6 +18,14 @@ pub struct Op {
     pub(crate) opcode: ast::Opcode,
 }
 
+/// `abort` and `return` end the program (or the closure iteration); they are not runtime errors.
+fn is_termination(err: &expression::ExpressionError) -> bool {
+    matches!(
+        err,
+        expression::ExpressionError::Abort { .. } | expression::ExpressionError::Return { .. }
+    )
+}
+
 fn is_number(value: &Value) -> bool {
     value.is_integer() || value.is_float()
 }
@@ -128,13 +136,31 @@ impl Expression for Op {
         use ast::Opcode::{Add, And, Div, Eq, Err, Ge, Gt, Le, Lt, Merge, Mul, Ne, Or, Sub};
 
         match self.opcode {
-            Err => return self.lhs.resolve(ctx).or_else(|_| self.rhs.resolve(ctx)),
+            Err => {
+                // `??` handles runtime errors only: `abort` and `return` are not errors
+                // and must not be intercepted.
+                let lhs = self.lhs.resolve(ctx);
+                return match &lhs {
+                    Result::Err(err) if !is_termination(err) => self.rhs.resolve(ctx),
+                    _ => lhs,
+                };
+            }
             Or => {
-                return self
-                    .lhs
-                    .resolve(ctx)?
-                    .try_or(|| self.rhs.resolve(ctx))
-                    .map_err(Into::into);
+                // An `abort` or `return` in the rhs terminates the program; it must not be
+                // rewritten into an "OR" type error.
+                let mut termination = None;
+                let result = self.lhs.resolve(ctx)?.try_or(|| {
+                    self.rhs.resolve(ctx).inspect_err(|err| {
+                        if is_termination(err) {
+                            termination = Some(err.clone());
+                        }
+                    })
+                });
+
+                return match termination {
+                    Some(err) => Result::Err(err),
+                    None => result.map_err(Into::into),
+                };
             }
             And => {
                 return match self.lhs.resolve(ctx)? {
